@@ -64,7 +64,28 @@ def c19():
         A_REGIME + ["arrays small enough for 32-bit offsets", "the configuration is switched with ViewBase.set_dtype before the arrays of a case are built"], t.s())
 
 
+def _hash_check(prop, n_quick, n_thorough):
+    def run():
+        t = Timer()
+        res = runner.Result(prop)
+        runner.hash_model_stage(res, prop)
+        runner.hash_trace_stage(res, prop, n_quick if Q else n_thorough)
+        return runner.finish(res,
+            "TLC explores every history of the HashTable / Counter machine (spec/abs/HashTable.tla) over the configured key universe (negative keys, "
+            "collisions, empty buckets), moduli and initial-value kinds, checking that the bucket / lazy scalar-or-array value mechanism (level M, incl. the "
+            "four branches of Counter.count) denotes the level-A dictionary after every step (HashRefines), that membership through the key's own bucket is "
+            "exact, that the key set never changes and the split / order lemmas of counting; every reachable state is one history replayed into the real "
+            "classes. A seeded driver runs 7-30 step histories with key dtypes int8..uint64, keys up to 2**62, explicit and default moduli, heavy repetition; "
+            "TLC walks the dictionary machine along every recorded history, judging every result and every table's content after every step.",
+            "case = one history (construction + operations); non-trivial = at least one operation after construction (model stage) / two (trace stage)",
+            ["keys are opaque at level A (only equality): 2**62-size keys are logged as four 16-bit limbs", "values are small integers (int64 / float64 value dtypes)",
+             "numpy 2.5.3 semantics of % and == on the key dtypes"], t.s())
+    return run
+
+
 CHECKS = {
+    "C11": _hash_check("C11", 3000, 40000),
+    "C12": _hash_check("C12", 3000, 40000),
     "C19": c19,
     "C06": _heap_check("C06", "C06", 3000, 40000, HEAP_TEXT),
     "C10": _heap_check("C10", "C10", 3000, 40000, HEAP_TEXT),
